@@ -128,17 +128,21 @@ def ls_cfg(lazy, walks, maxreq):
 
 def run_mc(res, wd, quick):
     nb, mr, mc = (3, 3, 5) if quick else (4, 4, 6)
+    jobs = []
     cfg = os.path.join(wd, "mc_memmgr.cfg")
     open(cfg, "w").write(mc_cfg("Spec", nb, mr, mc))
-    r = vlib.tlc_mc(MC_MM, cfg, workers=1, deadlock=True, name="c19mc", timeout=1500, extra=["-noGenerateSpecTE"])
-    res.add_mc(r, "MC_MemMgr NBlocks=%d MaxReq=%d MaxCalls=%d (all placements of the refused request)" % (nb, mr, mc))
+    jobs.append((MC_MM, cfg, "c19mc", "MC_MemMgr NBlocks=%d MaxReq=%d MaxCalls=%d (all placements of the refused request)" % (nb, mr, mc)))
     for lazy in (False, True):
         for walks in ("WalksAll", "WalksMixed"):
             cfg = os.path.join(wd, "mc_ls_%s_%s.cfg" % (lazy, walks))
             open(cfg, "w").write(ls_cfg(lazy, walks, 4 if quick else 5))
-            r = vlib.tlc_mc(MC_LS, cfg, workers=1, deadlock=True, name="c19ls", timeout=1500, extra=["-noGenerateSpecTE"])
-            res.add_mc(r, "MC_ListSentinel Lazy=%s %s: %s" % (lazy, walks, "KnownDeviation reaches std::terminate (DeviationIsReal)" if lazy
-                                                               else "repaired list refines MemMgr, never terminates"))
+            jobs.append((MC_LS, cfg, "c19ls%s%s" % (lazy, walks), "MC_ListSentinel Lazy=%s %s: %s" % (
+                lazy, walks, "KnownDeviation reaches std::terminate (DeviationIsReal)" if lazy else "repaired list refines MemMgr, never terminates")))
+    # POSTCONDITIONs read TLC registers: one worker per run; the runs themselves go in parallel
+    with ThreadPoolExecutor(max_workers=len(jobs)) as ex:
+        rs = list(ex.map(lambda j: vlib.tlc_mc(j[0], j[1], workers=1, deadlock=True, name=j[2], timeout=1500, extra=["-noGenerateSpecTE"]), jobs))
+    for j, r in zip(jobs, rs):
+        res.add_mc(r, j[3])
 
 
 def gen_histories(wd, quick):
